@@ -23,7 +23,7 @@ CLAIMED = {
 }
 NOT_YET = {}
 WIDE = {"C01", "C02", "C06", "C08", "C09", "C10", "C11", "C12", "C13", "C15", "C18"}
-MULTI = {"C01", "C02", "C06", "C08", "C09", "C11", "C12", "C13", "C15", "C18", "C20"}
+MULTI = {"C01", "C02", "C06", "C08", "C09", "C10", "C11", "C12", "C13", "C15", "C18", "C20"}
 LONG = {"C01", "C06", "C08", "C09", "C11"}
 VOUCHER = {"C01", "C02", "C13", "C15", "C18", "C20"}
 EXTRA_TEXT = {
